@@ -15,7 +15,7 @@ PROP = {
                   "upper-case and prefix patterns). Locations are built from a target (tree file, directory, "
                   "missing name, /etc file) by target-preserving spellings ('.', doubled and leading '//' "
                   "separators, 'name/..' detours incl. through allowed directories and missing names, climbs "
-                  "above the root, trailing '/' and '/.') and as relative paths, file:/ftp:/other-scheme and "
+                  "above the root, trailing '/' and '/.', and decoys whose written form matches a pattern segment by segment while the cleaned path does not) and as relative paths, file:/ftp:/other-scheme and "
                   "scheme-less host-looking strings, http(s) URLs. They are sent through the real handlers POST "
                   "add_url and set_url (block and allow lists, enabled and disabled-then-enabled) and are "
                   "pre-seeded into the configuration before refreshes (handler, forced, due-only), alone and in "
@@ -32,9 +32,9 @@ PROP = {
                   "malformed-http locations whose possible target lies inside the patterns are judged by the "
                   "safety direction only (the statement does not say whether they must be accepted).",
     "tests": [
-        ("TestVFC17AddSetURL", (700, 4000)),
-        ("TestVFC17Refresh", (600, 3000)),
-        ("TestVFC17History", (120, 500), {"steps": 12}),
+        ("TestVFC17AddSetURL", (700, 3200)),
+        ("TestVFC17Refresh", (600, 2400)),
+        ("TestVFC17History", (120, 400), {"steps": 12}),
     ],
     "plain": ["TestVFC17Examples"],
     "shards": (2, 16),
@@ -63,12 +63,14 @@ PROP = {
         "within one second would collide, which only a test can do)",
     ],
     "require_classes": {
-        "quick": ["expect:accept", "expect:reject", "patterns:empty", "reject:raw_under_pattern_dir"],
+        "quick": ["expect:accept", "expect:reject", "patterns:empty", "reject:raw_under_pattern_dir",
+                  "reject:raw_matches_pattern"],
         "thorough": [
             "expect:accept", "expect:reject", "expect:accept_http", "expect:open", "patterns:empty",
             "family:abs", "family:rel", "family:url", "family:http", "family:odd",
             "spell:dot", "spell:dbl", "spell:detour", "spell:trail", "spell:climb", "spell:via",
-            "reject:raw_under_pattern_dir", "reject:lookalike_dir", "accept:unclean_spelling",
+            "reject:raw_under_pattern_dir", "reject:raw_matches_pattern", "reject:lookalike_dir",
+            "accept:unclean_spelling", "spell:decoy",
             "entry:add_block", "entry:add_allow", "entry:set_block", "entry:set_allow", "entry:set_disabled",
             "entry:set_enable", "entry:refresh_handler_block", "entry:refresh_handler_allow",
             "entry:refresh_direct_forced", "entry:refresh_direct_due", "entry:history_add", "entry:history_set",
